@@ -38,6 +38,11 @@ Record pobs := mkPObs {
                                 (* (rig record, envelope, reached): conn.Write calls of this step that returned an error;
                                    reached = the transport had handed the envelope to the peer before failing *)
 
+(* actions of a step in which the serve loop may be held (Model/ProxyHeld.v): a model action; arm the hold (the loop
+   stays inside the disconnect callback of rig record r once it handles r's failure); release it; let the proxy
+   settle (no step boundary) *)
+Inductive hact := HA (a : act) | HHold (r : nat) | HRelease | HWait.
+
 Inductive pxcase :=
 | CProxy (pname : Z) (buf : nat) (icp : Z) (steps : list (list act)) (observed : list pobs)
     (* buf: the per-destination buffer size measured on the running code (calibration) *)
@@ -56,6 +61,8 @@ Inductive pxcase :=
     (* tie of [reply_of] (Model/Proxy.v) to server.go: the real Server was sent a request with this route record,
        source and destination; its reply (unary reply / error reply / RST_STREAM) carried this return route, source
        and destination *)
+| CProxyHeld (pname : Z) (buf : nat) (icp : Z) (hsteps : list (list hact)) (observed : list pobs)
+    (* lock-step with a slow disconnect callback: compared with the held-loop model *)
 | CProxyE2E (results : list (Z * Z))
     (* (expected, observed) outcome tokens of RPCs run through a real Proxy (+ Demux + Server) *)
 | CProxyFree (pname : Z) (buf : nat) (icp : Z) (names : list Z) (sent : list (Z * env)) (got : list (Z * env)) (drops : Z) (clean : bool).
@@ -693,6 +700,7 @@ Definition check (c : pxcase) : list nat :=
                     option_eqb lz_eqb (next_canon (e_next rp)) (next_canon next)
                     && (e_src rp =? rsrc) && (e_dst rp =? rdst) end) replies
       then [] else [10%nat]
+  | CProxyHeld _ _ _ _ _ => []   (* a C17 case kind: Check/C17c.v *)
   | CProxyE2E results =>
       if forallb (fun p => fst p =? snd p) results then [] else [6%nat]
   | CProxyFree pname buf icp names sent got drops clean =>
